@@ -1,5 +1,12 @@
 // ctl_cell.cpp — controlled-schedule scenarios for one future/promise cell (C01, C02, C20 part).
 // engines: cell_int cell_void cell_uptr cell_ref cell_cnt
+// threads: 1 k d  resolver (k: 0 value, 1 exception, 2 drop, 3 move-then-destroy, 4 async coroutine co_return d,
+//                           5 async coroutine throwing d)
+//          2 k    waiter   (k: 0 coroutine co_await f, 1 thread sync()+value(), 2 callback awaiter, 3 thread has_value(),
+//                           4 coroutine co_await f.has_value())
+//          9 ...  schedule
+// result lines: "tid 1 ret" resolver, "tid 2 done kind datum runs parked" waiter, "11 tid ready 0" async frame destroyed,
+//               "9 ready kind datum" final state of the future, "10 live 0" instance balance
 #define VH_DEFINE_NEW
 #include "ctl.h"
 #define protected public
@@ -29,6 +36,7 @@ struct traits;
 template <>
 struct traits<int> {
     static bool set(promise<int> &p, long v) { return p((int)v); }
+    static int make(long v) { return (int)v; }
     static long get(int &x) { return x; }
 };
 template <>
@@ -38,27 +46,30 @@ struct traits<void> {
 template <>
 struct traits<std::unique_ptr<int>> {
     static bool set(promise<std::unique_ptr<int>> &p, long v) { return p(std::make_unique<int>((int)v)); }
+    static std::unique_ptr<int> make(long v) { return std::make_unique<int>((int)v); }
     static long get(std::unique_ptr<int> &x) { return x ? *x : -12345; }
 };
 static long g_refcells[64];
 template <>
 struct traits<long &> {
-    static bool set(promise<long &> &p, long v) {
+    static long &make(long v) {
         static std::atomic<int> n{0};
         long &cell = g_refcells[n++ % 64];
         cell = v;
-        return p(cell);
+        return cell;
     }
+    static bool set(promise<long &> &p, long v) { return p(make(v)); }
     static long get(long &x) { return x; }
 };
 template <>
 struct traits<counted> {
     static bool set(promise<counted> &p, long v) { return p(counted(v)); }
+    static counted make(long v) { return counted(v); }
     static long get(counted &x) { return x.v; }
 };
 
 struct Seen {
-    long done = 0, kind = 0, datum = 0, runs = 0;
+    long done = 0, kind = 0, datum = 0, runs = 0, parked = 0;
 };
 
 template <typename T>
@@ -109,6 +120,18 @@ static async<void> coro_waiter(future<T> &f, Seen &s) {
     s.done = 1;
 }
 
+// coroutine awaiting has_value()
+template <typename T>
+static async<void> coro_has_waiter(future<T> &f, Seen &s) {
+    bool b = co_await f.has_value();
+    s.kind = 4;
+    s.datum = b;
+    s.runs++;
+    s.done = 1;
+}
+
+// callback awaiter: the context owns the awaiter node and deletes itself inside the callback, as a
+// fire-and-forget continuation does; the resolver must not touch the node after calling resume()
 template <typename T>
 struct CbCtx {
     future<T> *f;
@@ -118,9 +141,32 @@ struct CbCtx {
     static suspend_point<void> fn(awaiter *, void *u) noexcept {
         auto *c = static_cast<CbCtx *>(u);
         read_into(*c->f, *c->s);
+        delete c;
         return {};
     }
 };
+
+// async coroutine used as a resolver. The guard is a by-value parameter, so it lives in the coroutine frame and dies
+// exactly when the frame is destroyed; its destructor records whether the bound future was ready at that moment
+// (only for a coroutine whose body ran: a frame that lost the claim is destroyed unstarted by ~async)
+struct FrameGuard {
+    future_common *f;
+    long *out;
+    bool started = false;
+    FrameGuard(future_common *fu, long *o) : f(fu), out(o) {}
+    FrameGuard(FrameGuard &&o) : f(o.f), out(o.out), started(o.started) { o.out = nullptr; }
+    FrameGuard(const FrameGuard &) = delete;
+    ~FrameGuard() {
+        if (out && started) *out = f->_awaiter.load() == &awaiter::disabled ? 1 : 0;
+    }
+};
+template <typename T>
+static async<T> async_resolver(FrameGuard g, long kind, long datum) {
+    g.started = true;
+    if (kind == 5) throw test_exc{datum};
+    if constexpr (std::is_void_v<T>) co_return;
+    else co_return traits<T>::make(datum);
+}
 
 template <typename T>
 static void run_case(const vh::Case &cs) {
@@ -132,8 +178,8 @@ static void run_case(const vh::Case &cs) {
     std::vector<long> sched;
     for (auto &op : cs.ops) {
         if (op.empty()) continue;
-        if (op[0] == 1 && op.size() == 3 && op[1] >= 0 && op[1] <= 3) decl.push_back({1, op[1], op[2]});
-        else if (op[0] == 2 && op.size() == 2 && op[1] >= 0 && op[1] <= 3) decl.push_back({2, op[1], 0});
+        if (op[0] == 1 && op.size() == 3 && op[1] >= 0 && op[1] <= 5) decl.push_back({1, op[1], op[2]});
+        else if (op[0] == 2 && op.size() == 2 && op[1] >= 0 && op[1] <= 4) decl.push_back({2, op[1], 0});
         else if (op[0] == 9) sched.insert(sched.end(), op.begin() + 1, op.end());
     }
     decl.push_back({3, 0, 0});
@@ -144,7 +190,7 @@ static void run_case(const vh::Case &cs) {
         std::optional<promise<T>> prom(fut.get_promise());
         std::vector<long> res(n, -1);
         std::vector<Seen> seen(n);
-        std::vector<std::unique_ptr<CbCtx<T>>> cbs(n);
+        std::vector<long> frame(n, -1);
         std::atomic<int> resolvers_done{0};
         int nres = 0;
         for (auto &d : decl)
@@ -167,6 +213,8 @@ static void run_case(const vh::Case &cs) {
                             res[i] = got;
                             break;
                         }
+                        case 4:
+                        case 5: res[i] = async_resolver<T>(FrameGuard(&fut, &frame[i]), d.kind, d.datum).start(*prom); break;
                     }
                     resolvers_done++;
                 });
@@ -180,16 +228,27 @@ static void run_case(const vh::Case &cs) {
             } else {
                 fns.push_back([&, i, d] {
                     switch (d.kind) {
-                        case 0: coro_waiter<T>(fut, seen[i]).detach(); break;
+                        case 0:
+                            coro_waiter<T>(fut, seen[i]).detach();
+                            seen[i].parked = !seen[i].done;
+                            break;
+                        case 4:
+                            coro_has_waiter<T>(fut, seen[i]).detach();
+                            seen[i].parked = !seen[i].done;
+                            break;
                         case 1: {
                             fut.sync();
                             read_into(fut, seen[i]);
                             break;
                         }
                         case 2: {
-                            cbs[i].reset(new CbCtx<T>(fut, seen[i]));
-                            if (cbs[i]->aw.await_ready() || !cbs[i]->aw.await_suspend(&CbCtx<T>::fn, cbs[i].get()))
+                            auto *cb = new CbCtx<T>(fut, seen[i]);
+                            if (cb->aw.await_ready() || !cb->aw.await_suspend(&CbCtx<T>::fn, cb)) {
                                 read_into(fut, seen[i]);
+                                delete cb;
+                            } else {
+                                seen[i].parked = 1;   // cb now belongs to the callback
+                            }
                             break;
                         }
                         case 3: {
@@ -209,11 +268,17 @@ static void run_case(const vh::Case &cs) {
         c.print_trace();
         for (int i = 0; i < n; i++) {
             if (decl[i].role == 2) {
-                vh::print_obs({(long)i, 2, seen[i].done, seen[i].kind, seen[i].datum, seen[i].runs});
+                long parked = seen[i].parked;
+                if (decl[i].kind == 1 || decl[i].kind == 3)   // sync(): it suspended iff it reached the flag wait
+                    for (auto &p : c.trace)
+                        if (p.first == i && p.second == ctl::point_code("flagwait")) parked = 1;
+                vh::print_obs({(long)i, 2, seen[i].done, seen[i].kind, seen[i].datum, seen[i].runs, parked});
             } else {
                 vh::print_obs({(long)i, 1, res[i]});
             }
         }
+        for (int i = 0; i < n; i++)
+            if (frame[i] >= 0) vh::print_obs({11, (long)i, frame[i], 0});
         ctl::finish_case_or_restart(c);
         long ready = fut.ready();
         Seen fin;
